@@ -135,3 +135,26 @@ Definition same_colour_b (tol : Z) (a b : color4 Z) : bool :=
   (((c2 a <=? tol)%Z && (c2 b <=? tol)%Z)
    || ((c1 a <=? tol)%Z && (c1 b <=? tol)%Z && near (c2 a) (c2 b))
    || (hue_near (c0 a) (c0 b) && near (c1 a) (c1 b) && near (c2 a) (c2 b))).
+
+(* ---- C14: the documentation's table "Changed When Switching Units Mode"
+   (docs/language.rst) and "None of the changes in unit mode affect the contents of kelvin" *)
+Inductive setting : Set := S_time | S_duration | S_hue | S_saturation | S_brightness
+                         | S_red | S_green | S_blue | S_kelvin.
+
+Definition all_settings : list setting :=
+  (S_time :: S_duration :: S_hue :: S_saturation :: S_brightness :: S_red :: S_green :: S_blue :: S_kelvin :: nil)%list.
+
+Definition doc_rewritten (from to : smode) (s : setting) : bool :=
+  match from, to, s with
+  | SLogical, SRaw, (S_time | S_duration | S_hue | S_saturation | S_brightness) => true
+  | SRaw, SLogical, (S_time | S_duration | S_hue | S_saturation | S_brightness) => true
+  | SRgb, SRaw, (S_time | S_duration | S_hue | S_saturation | S_brightness) => true
+  | SRaw, SRgb, (S_time | S_duration | S_red | S_green | S_blue) => true
+  | SRgb, SLogical, (S_hue | S_saturation | S_brightness) => true
+  | SLogical, SRgb, (S_red | S_green | S_blue) => true
+  | _, _, _ => false
+  end.
+
+(* documented valid ranges of the settings in each mode (hue 0..360, percentages 0..100,
+   raw 0..65535, non-negative times) *)
+Definition in_range (lo hi x : Q) : Prop := lo <= x /\ x <= hi.
